@@ -907,7 +907,9 @@ class APIClient:
                 BluetoothGATTNotifyResponse,
                 timeout,
             )
-        except Exception:
+        except BaseException:
+            # also when the caller cancels the call: it never receives
+            # the handle it would need to remove the callback itself
             remove_callback()
             raise
 
